@@ -248,151 +248,162 @@ theorem binTy_comm (op : BinOp) (ta tb : Ty) (h : op.commutative = true) : binTy
 theorem strEq_bin {a1 o1 l1 r1 a2 o2 l2 r2} : (Expr.bin a1 o1 l1 r1).strEq (.bin a2 o2 l2 r2) = true ↔ o1 = o2 := by
   simp [Expr.strEq]
 
-/-- the `==|!=` rule (astutils.cpp:1672-1709) on admissible inputs: the pair it recurses on is evaluated, smaller, and
-    relates back to the original pair -/
+theorem notArg_spec {e x : Expr} (h : e.notArg = some x) : ∃ a, e = .un a .lnot x := by
+  unfold Expr.notArg at h
+  split at h
+  · simp at h; subst h; exact ⟨_, rfl⟩
+  · simp at h
+
+theorem eqNeKnown_spec {l r vt : Expr} {k : Int} (h : eqNeKnown l r = some (k, vt)) :
+    ∃ kt, kt.ann.known = some k ∧ ((kt = l ∧ vt = r) ∨ (kt = r ∧ vt = l)) := by
+  unfold eqNeKnown at h
+  split at h
+  · rename_i k' hk
+    simp at h; obtain ⟨rfl, rfl⟩ := h
+    exact ⟨l, hk, Or.inl ⟨rfl, rfl⟩⟩
+  · split at h
+    · rename_i k' hk
+      simp at h; obtain ⟨rfl, rfl⟩ := h
+      exact ⟨r, hk, Or.inr ⟨rfl, rfl⟩⟩
+    · simp at h
+
+theorem eqNeCompare_op {k : Int} {n : Bool} {op : BinOp} (h : eqNeCompare k n op = true) : op = .eq ∨ op = .ne := by
+  simp only [eqNeCompare, Bool.or_eq_true, Bool.and_eq_true, beq_iff_eq] at h
+  rcases h with ((h | h) | h) | h
+  · exact Or.inl h.2
+  · exact Or.inr h.2
+  · exact Or.inr h.2
+  · exact Or.inl h.2
+
+/-- value of an `==`/`!=` between two 0/1 values -/
+theorem eqne_val {S ρ ac op l r vc x y} (hop : op = .eq ∨ op = .ne) (hc : eval S ρ (.bin ac op l r) = some vc)
+    (hx : eval S ρ l = some x) (hy : eval S ρ r = some y) (x01 : x = 0 ∨ x = 1) (y01 : y = 0 ∨ y = 1) :
+    vc = b2i (if op = .eq then decide (x = y) else decide (x ≠ y)) := by
+  have hlog : op.isLogic = false := by rcases hop with h | h <;> subst h <;> rfl
+  obtain ⟨x', y', hx', hy', hv⟩ := eval_bin_cop hlog hc
+  rw [hx] at hx'; rw [hy] at hy'
+  simp only [Option.some.injEq] at hx' hy'
+  subst hx'; subst hy'
+  have wx := wrap_uac_01 (tyOf S l) (tyOf S r) x x01
+  have wy := wrap_uac_01 (tyOf S l) (tyOf S r) y y01
+  rcases hop with h | h <;> subst h <;> simp [evalBin, BinOp.isShift, wx, wy] at hv <;> subst hv <;> simp
+
+theorem tt_not {k u w : Int} {op : BinOp} (hk : k = 0 ∨ k = 1) (hu : u = 0 ∨ u = 1)
+    (hc : eqNeCompare k true op = true) (ht : u ≠ 0 ↔ w ≠ 0) :
+    b2i (if op = .eq then decide (u = k) else decide (u ≠ k)) = b2i (decide (w = 0)) ∧
+    b2i (if op = .eq then decide (k = u) else decide (k ≠ u)) = b2i (decide (w = 0)) := by
+  rcases eqNeCompare_op hc with rfl | rfl <;> rcases hk with rfl | rfl <;> rcases hu with rfl | rfl <;>
+    simp [eqNeCompare] at hc ⊢ <;> simp_all
+
+theorem tt_pos {k u w : Int} {op : BinOp} (hk : k = 0 ∨ k = 1) (hu : u = 0 ∨ u = 1)
+    (hc : eqNeCompare k false op = true) (ht : u ≠ 0 ↔ w ≠ 0) :
+    (b2i (if op = .eq then decide (u = k) else decide (u ≠ k)) ≠ 0 ↔ w ≠ 0) ∧
+    (b2i (if op = .eq then decide (k = u) else decide (k ≠ u)) ≠ 0 ↔ w ≠ 0) := by
+  rcases eqNeCompare_op hc with rfl | rfl <;> rcases hk with rfl | rfl <;> rcases hu with rfl | rfl <;>
+    simp [eqNeCompare] at hc ⊢ <;> simp_all [b2i]
+
+/-- the `==|!=` rule (astutils.cpp:1672-1709) on admissible inputs: the pair it recurses on is evaluated and relates back
+    to the original pair -/
 theorem eqNeCond_sound {S ρ cond ce expr ca a cb b vc ve}
     (hp : eqNeCond cond ce expr = some (ca, a, cb, b))
     (gc : Good S cond) (ge : Good S expr)
     (hc : eval S ρ cond = some vc) (he : eval S ρ expr = some ve) :
-    Good S a ∧ Good S b ∧ ca = .cop ∧
+    Good S a ∧ Good S b ∧
     ∃ u w, eval S ρ a = some u ∧ eval S ρ b = some w ∧
       (Sim S ca a u cb b w → ∀ cc, Sim S cc cond vc ce expr ve) := by
-  unfold eqNeCond at hp
   cases cond with
-  | lit _ _ => simp at hp
-  | var _ _ => simp at hp
-  | un _ _ _ => simp at hp
+  | lit _ _ => simp [eqNeCond] at hp
+  | var _ _ => simp [eqNeCond] at hp
+  | un _ _ _ => simp [eqNeCond] at hp
   | bin ac op l r =>
-    simp only at hp
+    simp only [eqNeCond] at hp
     split at hp
     · simp at hp
-    · rename_i hnotcmp
-      obtain ⟨gl, gr⟩ := gc.bin
-      -- which side carries the Known value
-      have key : ∀ (k : Int) (kt vt : Expr), kt.ann.known = some k → Good S kt → Good S vt →
-          ((kt = l ∧ vt = r) ∨ (kt = r ∧ vt = l)) →
-          (k = 0 ∨ k = 1 ∨ boolLike .cop vt = false) →
-          (if ((k == 0 && (match expr with | .un _ .lnot _ => true | _ => false) && op == .eq) ||
-               (k == 0 && !(match expr with | .un _ .lnot _ => true | _ => false) && op == .ne) ||
-               (k != 0 && (match expr with | .un _ .lnot _ => true | _ => false) && op == .ne) ||
-               (k != 0 && !(match expr with | .un _ .lnot _ => true | _ => false) && op == .eq)) &&
-              boolLike .cop vt && boolLike (match expr with | .un _ .lnot _ => Ctx.lnot | _ => ce)
-                (match expr with | .un _ .lnot x => x | _ => expr)
-           then some (Ctx.cop, vt, (match expr with | .un _ .lnot _ => Ctx.lnot | _ => ce),
-                      (match expr with | .un _ .lnot x => x | _ => expr)) else none) = some (ca, a, cb, b) →
-          Good S a ∧ Good S b ∧ ca = .cop ∧
-          ∃ u w, eval S ρ a = some u ∧ eval S ρ b = some w ∧
-            (Sim S ca a u cb b w → ∀ cc, Sim S cc (.bin ac op l r) vc ce expr ve) := by
-        intro k kt vt hk gkt gvt hside hk01 hp
-        split at hp
-        · rename_i hcond
-          simp only [Option.some.injEq, Prod.mk.injEq] at hp
-          obtain ⟨rfl, rfl, rfl, rfl⟩ := hp
-          simp only [Bool.and_eq_true] at hcond
-          obtain ⟨⟨hcompare, hbl1⟩, hbl2⟩ := hcond
-          have hk01' : k = 0 ∨ k = 1 := by
-            rcases hk01 with h | h | h
-            · exact Or.inl h
-            · exact Or.inr h
-            · rw [h] at hbl1; simp at hbl1
-          -- the operator is == or != (from `compare`)
-          have hop : op = .eq ∨ op = .ne := by
-            simp only [Bool.or_eq_true, Bool.and_eq_true, beq_iff_eq] at hcompare
-            rcases hcompare with ((h | h) | h) | h
-            · exact Or.inl h.2
-            · exact Or.inr h.2
-            · exact Or.inr h.2
-            · exact Or.inl h.2
+    · cases hkn : eqNeKnown l r with
+      | none => rw [hkn] at hp; simp at hp
+      | some p =>
+        obtain ⟨k, vt⟩ := p
+        rw [hkn] at hp
+        simp only at hp
+        obtain ⟨kt, hkt, hside⟩ := eqNeKnown_spec hkn
+        obtain ⟨gl, gr⟩ := gc.bin
+        have gkt : Good S kt := by rcases hside with ⟨rfl, _⟩ | ⟨rfl, _⟩ <;> assumption
+        have gvt : Good S vt := by rcases hside with ⟨_, rfl⟩ | ⟨_, rfl⟩ <;> assumption
+        -- common part once `compare` and the two bool-like tests hold
+        have core : ∀ (n : Bool), eqNeCompare k n op = true → boolLike .cop vt = true →
+            (k = 0 ∨ k = 1) ∧ (op = .eq ∨ op = .ne) ∧
+            ∃ u, eval S ρ vt = some u ∧ (u = 0 ∨ u = 1) ∧
+              (vc = b2i (if op = .eq then decide (u = k) else decide (u ≠ k)) ∨
+               vc = b2i (if op = .eq then decide (k = u) else decide (k ≠ u))) := by
+          intro n hcmp hbl
+          have hop := eqNeCompare_op hcmp
+          have hsafe := gc.2
+          simp only [eqNeSafe, Bool.and_eq_true, Bool.or_eq_true, Bool.not_eq_true'] at hsafe
+          have hk01 : k = 0 ∨ k = 1 := by
+            rcases hsafe.2 with h | h
+            · rcases hop with rfl | rfl <;> simp at h
+            · rw [hkn] at h
+              simp only [Bool.or_eq_true, beq_iff_eq, Bool.not_eq_true'] at h
+              rcases h with (h | h) | h
+              · exact Or.inl h
+              · exact Or.inr h
+              · rw [h] at hbl; simp at hbl
           have hlog : op.isLogic = false := by rcases hop with h | h <;> subst h <;> rfl
-          obtain ⟨x, y, hx, hy, hv⟩ := eval_bin_cop hlog hc
-          -- values of the Known side and of the boolean side
-          have hbv := annOK_boolLike_cop gvt.1 hbl1
-          have hvals : ∃ u kv, eval S ρ vt = some u ∧ eval S ρ kt = some kv ∧ kv = k ∧ (u = 0 ∨ u = 1) ∧
-              vc = b2i (if op = .eq then decide (u = k) else decide (u ≠ k)) := by
-            rcases hside with ⟨rfl, rfl⟩ | ⟨rfl, rfl⟩
-            · have hkv : x = k := toI64_eq_01 _ _ _ (eval_inRange S ρ _ _ hx) hk01' (known_val gkt.1 hk hx)
-              have hu := (isBoolVal_eval hbv hy).1
-              refine ⟨y, x, hy, hx, hkv, hu, ?_⟩
-              have wx := wrap_uac_01 (tyOf S kt) (tyOf S vt) x (hkv ▸ hk01')
-              have wy := wrap_uac_01 (tyOf S kt) (tyOf S vt) y hu
-              rcases hop with h | h <;> subst h <;> simp [evalBin, BinOp.isShift, wx, wy] at hv <;> subst hv <;> subst hkv <;>
-                simp [eq_comm]
-            · have hkv : y = k := toI64_eq_01 _ _ _ (eval_inRange S ρ _ _ hy) hk01' (known_val gkt.1 hk hy)
-              have hu := (isBoolVal_eval hbv hx).1
-              refine ⟨x, y, hx, hy, hkv, hu, ?_⟩
-              have wx := wrap_uac_01 (tyOf S vt) (tyOf S kt) x hu
-              have wy := wrap_uac_01 (tyOf S vt) (tyOf S kt) y (hkv ▸ hk01')
-              rcases hop with h | h <;> subst h <;> simp [evalBin, BinOp.isShift, wx, wy] at hv <;> subst hv <;> subst hkv <;>
-                simp
-          obtain ⟨u, kv, hu, _, _, hu01, hvc⟩ := hvals
-          have hcondBool : ∀ cc, boolLike cc (.bin ac op l r) = true := by
-            intro cc; rcases hop with h | h <;> subst h <;> simp [boolLike, Expr.isBoolVal, BinOp.isCmp]
-          -- the expression side
-          cases expr with
-          | un ae eop ex =>
-            cases eop
-            case lnot =>
-              simp only at hbl2 hcompare ⊢
-              obtain ⟨w, hw, hve⟩ := eval_lnot he
-              refine ⟨gvt, ge.un, rfl, u, w, hu, hw, ?_⟩
-              intro hs cc
-              have ht := hs.truthy
-              left
-              refine ⟨?_, by rcases hop with h | h <;> subst h <;> simp [tyOf, BinOp.isCmp]⟩
-              subst hve; subst hvc
-              simp only [Bool.or_eq_true, Bool.and_eq_true, beq_iff_eq, bne_iff_ne, Bool.not_eq_true',
-                         Bool.true_eq_false, and_false, or_false, false_or, and_true, Bool.not_true] at hcompare
-              rcases hk01' with rfl | rfl <;> rcases hu01 with rfl | rfl <;> rcases hcompare with ⟨_, rfl⟩ | ⟨_, rfl⟩ <;>
-                simp_all [b2i]
-            all_goals
-              simp only at hbl2 hcompare ⊢
-              refine ⟨gvt, ge, rfl, u, ve, hu, he, ?_⟩
-              intro hs cc
-              have ht := hs.truthy
-              right
-              refine ⟨hcondBool cc, hbl2, ?_⟩
-              subst hvc
-              simp only [Bool.or_eq_true, Bool.and_eq_true, beq_iff_eq, bne_iff_ne, Bool.not_eq_true',
-                         Bool.true_eq_false, and_false, or_false, false_or, and_true, Bool.not_true, Bool.not_false] at hcompare
-              rcases hk01' with rfl | rfl <;> rcases hu01 with rfl | rfl <;> rcases hcompare with ⟨_, rfl⟩ | ⟨_, rfl⟩ <;>
-                simp_all [b2i]
-          | lit _ _ =>
-            simp only at hbl2 hcompare ⊢
-            refine ⟨gvt, ge, rfl, u, ve, hu, he, ?_⟩
+          obtain ⟨x, y, hx, hy, _⟩ := eval_bin_cop hlog hc
+          have hbv := annOK_boolLike_cop gvt.1 hbl
+          refine ⟨hk01, hop, ?_⟩
+          rcases hside with ⟨rfl, rfl⟩ | ⟨rfl, rfl⟩
+          · have hkv : x = k := toI64_eq_01 _ _ _ (eval_inRange S ρ _ _ hx) hk01 (known_val gkt.1 hkt hx)
+            have hu := (isBoolVal_eval hbv hy).1
+            refine ⟨y, hy, hu, Or.inr ?_⟩
+            have := eqne_val hop hc hx hy (hkv ▸ hk01) hu
+            rw [hkv] at this; exact this
+          · have hkv : y = k := toI64_eq_01 _ _ _ (eval_inRange S ρ _ _ hy) hk01 (known_val gkt.1 hkt hy)
+            have hu := (isBoolVal_eval hbv hx).1
+            refine ⟨x, hx, hu, Or.inl ?_⟩
+            have := eqne_val hop hc hx hy hu (hkv ▸ hk01)
+            rw [hkv] at this; exact this
+        cases hn : expr.notArg with
+        | some x =>
+          rw [hn] at hp
+          simp only at hp
+          split at hp
+          · rename_i hcond
+            simp only [Option.some.injEq, Prod.mk.injEq] at hp
+            obtain ⟨rfl, rfl, rfl, rfl⟩ := hp
+            simp only [Bool.and_eq_true] at hcond
+            obtain ⟨⟨hcmp, hbl1⟩, _⟩ := hcond
+            obtain ⟨hk01, hop, u, hu, hu01, hvc⟩ := core true hcmp hbl1
+            obtain ⟨ae, rfl⟩ := notArg_spec hn
+            obtain ⟨w, hw, hve⟩ := eval_lnot he
+            refine ⟨gvt, ge.un, u, w, hu, hw, ?_⟩
             intro hs cc
-            have ht := hs.truthy
-            right
-            refine ⟨hcondBool cc, hbl2, ?_⟩
-            subst hvc
-            simp only [Bool.or_eq_true, Bool.and_eq_true, beq_iff_eq, bne_iff_ne, Bool.not_eq_true',
-                       Bool.true_eq_false, and_false, or_false, false_or, and_true, Bool.not_true, Bool.not_false] at hcompare
-            rcases hk01' with rfl | rfl <;> rcases hu01 with rfl | rfl <;> rcases hcompare with ⟨_, rfl⟩ | ⟨_, rfl⟩ <;>
-              simp_all [b2i]
-          | var _ _ =>
-            simp only at hbl2 hcompare ⊢
-            refine ⟨gvt, ge, rfl, u, ve, hu, he, ?_⟩
+            have tt := tt_not hk01 hu01 hcmp hs.truthy
+            left
+            refine ⟨?_, by rcases hop with h | h <;> subst h <;> simp [tyOf, BinOp.isCmp, BinOp.isLogic]⟩
+            rw [hve]
+            rcases hvc with h | h <;> rw [h]
+            · exact tt.1
+            · exact tt.2
+          · simp at hp
+        | none =>
+          rw [hn] at hp
+          simp only at hp
+          split at hp
+          · rename_i hcond
+            simp only [Option.some.injEq, Prod.mk.injEq] at hp
+            obtain ⟨rfl, rfl, rfl, rfl⟩ := hp
+            simp only [Bool.and_eq_true] at hcond
+            obtain ⟨⟨hcmp, hbl1⟩, hbl2⟩ := hcond
+            obtain ⟨hk01, hop, u, hu, hu01, hvc⟩ := core false hcmp hbl1
+            refine ⟨gvt, ge, u, ve, hu, he, ?_⟩
             intro hs cc
-            have ht := hs.truthy
+            have tt := tt_pos hk01 hu01 hcmp hs.truthy
             right
-            refine ⟨hcondBool cc, hbl2, ?_⟩
-            subst hvc
-            simp only [Bool.or_eq_true, Bool.and_eq_true, beq_iff_eq, bne_iff_ne, Bool.not_eq_true',
-                       Bool.true_eq_false, and_false, or_false, false_or, and_true, Bool.not_true, Bool.not_false] at hcompare
-            rcases hk01' with rfl | rfl <;> rcases hu01 with rfl | rfl <;> rcases hcompare with ⟨_, rfl⟩ | ⟨_, rfl⟩ <;>
-              simp_all [b2i]
-          | bin _ _ _ _ =>
-            simp only at hbl2 hcompare ⊢
-            refine ⟨gvt, ge, rfl, u, ve, hu, he, ?_⟩
-            intro hs cc
-            have ht := hs.truthy
-            right
-            refine ⟨hcondBool cc, hbl2, ?_⟩
-            subst hvc
-            simp only [Bool.or_eq_true, Bool.and_eq_true, beq_iff_eq, bne_iff_ne, Bool.not_eq_true',
-                       Bool.true_eq_false, and_false, or_false, false_or, and_true, Bool.not_true, Bool.not_false] at hcompare
-            rcases hk01' with rfl | rfl <;> rcases hu01 with rfl | rfl <;> rcases hcompare with ⟨_, rfl⟩ | ⟨_, rfl⟩ <;>
-              simp_all [b2i]
-        · simp at hp
-      sorry
+            refine ⟨by rcases hop with h | h <;> subst h <;> simp [boolLike, Expr.isBoolVal, BinOp.isCmp], hbl2, ?_⟩
+            rcases hvc with h | h <;> rw [h]
+            · exact tt.1
+            · exact tt.2
+          · simp at hp
 
 end Cppcheck.CondExpr
